@@ -139,7 +139,8 @@ def sort_intersections(r_a, rotate):
         return r_a
     vals = [0] * len(r_a)
     for i, inter in enumerate(r_a):
-        phi = PI_OVER_2 if inter[0] == 0 else atan(inter[1] / inter[0])
+        # an intersection on the y axis may come out as x = -7e-15: atan(y / x) would then be -pi/2 and reverse the order
+        phi = PI_OVER_2 if abs(inter[0]) < 1.0e-9 else atan(inter[1] / inter[0])
         dist_inter = sqrt(inter[1] ** 2 + inter[0] ** 2)
         ref_ang = PI_OVER_2 - phi
         # sign = 1
